@@ -16,4 +16,5 @@ export IOX2_FACTS_OUT="$OUT"
 export IOX2_FACTS_CRATES="iceoryx2_pal_concurrency_sync,iceoryx2_bb_elementary_traits,iceoryx2_bb_elementary,iceoryx2_bb_concurrency,iceoryx2_bb_lock_free,iceoryx2_bb_container,iceoryx2_bb_memory,iceoryx2_bb_system_types,iceoryx2_bb_posix,iceoryx2_bb_linux,iceoryx2_bb_threadsafe,iceoryx2_cal,iceoryx2,iceoryx2_ffi_c"
 export CARGO_NET_OFFLINE=true
 cd "$REPO"
-cargo +nightly check --offline -p iceoryx2-ffi-c -p iceoryx2-bb-threadsafe --lib "$@"
+PKGS="${IOX2_PKGS:--p iceoryx2-ffi-c -p iceoryx2-bb-threadsafe}"
+cargo +nightly check --offline $PKGS --lib "$@"
